@@ -125,6 +125,10 @@ class DecoSys:
             self.ngen_offset = s.ngen        # the decorating instance itself is never entered
         else:
             class Manager(L.ContextDecorator):
+                def __await__(self):       # a manager that can also be awaited (pool-acquire style): a decorated call enters it
+                    s.errors.append(("manager-awaited-instead-of-entered", s.current, "__await__ of the decorating manager was used"))
+                    return iter(())
+
                 async def __aenter__(self):
                     c = s.current
                     await Suspend(s.acct, ("enter", c))
@@ -375,6 +379,51 @@ def beyond_bounds(tier, seed, v):
     return stats
 
 
+def stacking(L):
+    """One manager object decorating a function twice (directly, and with a functools.wraps decorator in between): every
+    call enters a context per decoration -- as with contextlib, whose managers can be stacked like any decorator."""
+    import contextlib  # noqa: PLC0415
+    import functools  # noqa: PLC0415
+    out = []
+
+    def passthrough(fn):
+        @functools.wraps(fn)
+        async def w(*a, **k):
+            return await fn(*a, **k)
+        return w
+
+    def run(cmdeco, between):
+        log = []
+
+        @cmdeco
+        async def m():
+            log.append("enter")
+            try:
+                yield
+            finally:
+                log.append("exit")
+
+        mgr = m()
+
+        async def f(x):
+            log.append("body")
+            return ("result", x)
+
+        g = mgr(passthrough(mgr(f))) if between else mgr(mgr(f))
+        r = [Task(g(i), Accounting()).run() for i in (1, 2)]
+        return {"log": log, "results": [repr(x) for x in r]}
+
+    for between in (False, True):
+        want = run(contextlib.asynccontextmanager, between)
+        if want["log"] != ["enter", "enter", "body", "exit", "exit"] * 2:
+            raise MachineryError(f"contextlib does not stack one manager twice as expected: {want}")
+        got = run(L.contextmanager, between)
+        if got != want:
+            out.append(("C15/decorator/one-manager-stacked-twice-enters-once" if got["log"].count("enter") < 4 else "C15/decorator/one-manager-stacked-twice-differs",
+                        {"engine": "scenario", "cfg": {"wraps_in_between": between}, "expected": want, "observed": got}))
+    return out
+
+
 def check(prop, tier, seed, into=None):
     v = into or Verdict(prop, tier, seed)
     label_counts = {}
@@ -394,6 +443,8 @@ def check(prop, tier, seed, into=None):
                     v.violation(sig, d)
         if paths:
             v.sample({"cfg": list(cfg), "schedule": [e["a"] for e in paths[len(paths) // 2]]})
+    for sig, d in stacking(tm.load_lib()):
+        v.violation(sig, d)
     tstats = beyond_bounds(tier, seed, v) if into is None else {}
     v.assumptions += ["enter, body and exit each suspend once; managers are the instrumented ones of harness/eng_decor.py"]
     vac = dict(label_counts)
